@@ -20,7 +20,9 @@ UNIT = Unit(
            cut_from="let collapsed_for_ty = m.collapse_type_apps(&for_ty);", cut_before="MonoExpr::EToDyn {\n                trait_name,\n                for_ty: collapsed_for_ty,",
            cut_tail="    collapsed_for_ty",
            sig="fn todyn_for_ty(m: &mut TypeMono, for_ty: Ty) -> Ty",
-           rewrites=[("collapsed_for_ty != for_ty", "ty_ne(&collapsed_for_ty, &for_ty)", 1), (re.compile(r"\b(\w+)\.clone\(\)"), r"ty_clone(&\1)", "*")],
+           rewrites=[("collapsed_for_ty != for_ty", "ty_ne(&collapsed_for_ty, &for_ty)", "*"), ("for_ty != collapsed_for_ty", "ty_ne(&for_ty, &collapsed_for_ty)", "*"),
+                     # a test on the SHAPE of a type (`matches!(t, Ty::TApp { .. })`) is an uninterpreted predicate of the type here
+                     (re.compile(r"matches!\(\s*&?(\w+),\s*Ty::(\w+)\s*(?:\{ \.\. \}|\(\.\.\))?\s*\)"), r'ty_has_shape(&\1, "\2")', "*"), (re.compile(r"\b(\w+)\.clone\(\)"), r"ty_clone(&\1)", "*")],
            obligation="the coercion carries the collapsed receiver type, and afterwards the table gives, for that type, the type the impl was written for (unless "
                       "nothing was collapsed and an entry of that key exists already: a name collision, C07)",
            contract="ensures r == collapse_of(for_ty),\n"
